@@ -23,7 +23,7 @@ tvars == <<vars, tid, phase>>
 SetOf(s) == {s[i] : i \in DOMAIN s}
 
 CfgOf(j) == [mounted |-> SetOf(j.mounted), top |-> j.top, altfile |-> SetOf(j.altfile),
-             xdg |-> j.xdg, home |-> j.home, kind |-> j.kind]
+             xdg |-> j.xdg, home |-> j.home, hlink |-> j.hlink, kind |-> j.kind]
 Loc4(x) == [r |-> x.r, d |-> x.d, n |-> x.n, o |-> x.o]
 StateOf(j) ==
   [live   |-> {Loc4(x) : x \in SetOf(j.live)},
